@@ -149,12 +149,16 @@ class Match:
         self.default = default
 
     def glomit(self, target, scope):
+        mode = scope[MODE]
         scope[MODE] = _glom_match
         try:
             ret = scope[glom](target, self.spec, scope)
         except GlomError:
             if self.default is _MISSING:
                 raise
+            # (the default is not part of the pattern: a Spec in it is
+            # evaluated in the mode around the Match, like other defaults)
+            scope[MODE] = mode
             ret = arg_val(target, self.default, scope)
         return ret
 
